@@ -77,6 +77,9 @@ COQTY = _CoqTypes({'Z': 'Z', 'Q': 'Q', 'B': 'bool', 'S': 'string', 'OQ': 'option
          'LZ': 'list Z',         # [loop ties C06] LZ: a 1-d integer array / list of ints, as a value
          'LQ': 'list Q',         # [loop ties C15/C05] LQ: a 1-d float array / Series / list of numbers, as a value (opaque: only
                                  # passed on to function-typed parameters, see fn_type)
+         'OB': 'option bool',    # [loop ties C15/C05] OB: an optional boolean (None / True / False, e.g. a sex call that may be
+                                 # missing): `is None`, truthiness (None is false), == / !=, `x = None`, return None, and the
+                                 # two narrowing statements of block() (`if x is None: return ..` / `if x is None: x = d`)
          'EXC': 'bool'})         # [loop ties C15] EXC: NOT a Python value -- whether the statement guarded by a `try` raises the
                                  # exception its handler catches (spec key `tries`, see try_stmt)
 
@@ -166,6 +169,8 @@ class FnTranslator:
             return '(match %s with Some q_ => negb (Qeq_bool q_ 0) | None => false end)' % t
         if ty == 'OZ':
             return '(match %s with Some z_ => negb (Z.eqb z_ 0) | None => false end)' % t
+        if ty == 'OB':
+            return '(match %s with Some b_ => b_ | None => false end)' % t          # [loop ties C15/C05] None is false
         raise Refuse('truthiness of type %s' % ty)
 
     # ---- expressions
@@ -309,7 +314,7 @@ class FnTranslator:
                 if not (isinstance(rhs, ast.Constant) and rhs.value is None):
                     raise Refuse('`is` only against None')
                 a = self.expr(n.left, env)
-                if a[1] not in ('OQ', 'OZ'):
+                if a[1] not in ('OQ', 'OZ', 'OB'):
                     # a non-optional value is never None
                     return ('false' if isinstance(op, ast.Is) else 'true', 'B')
                 t = '(match %s with Some _ => false | None => true end)' % a[0]
@@ -339,6 +344,11 @@ class FnTranslator:
                 if isinstance(op, ast.NotEq):
                     return ('(negb (String.eqb %s %s))' % (a[0], b[0]), 'B')
                 raise Refuse('string ordering')
+            if {a[1], b[1]} <= {'B', 'OB'} and 'OB' in (a[1], b[1]) and isinstance(op, (ast.Eq, ast.NotEq)):
+                # [loop ties C15/C05] == / != of optional booleans: None equals only None (Python and numpy booleans alike)
+                x, y = self.coerce(a, 'OB'), self.coerce(b, 'OB')
+                t = ('(match %s, %s with Some x_, Some y_ => Bool.eqb x_ y_ | None, None => true | _, _ => false end)' % (x, y))
+                return (t if isinstance(op, ast.Eq) else '(negb %s)' % t, 'B')
             if a[1] == 'B' and b[1] == 'B' and isinstance(op, (ast.Eq, ast.NotEq)):
                 t = '(Bool.eqb %s %s)' % (a[0], b[0])
                 return (t if isinstance(op, ast.Eq) else '(negb %s)' % t, 'B')
@@ -801,8 +811,10 @@ class FnTranslator:
             return a[0]
         if ty == 'Q' and a[1] == 'Z':
             return self.toQ(a)
-        if a[1] == 'NONE' and ty in ('OQ', 'OZ'):
+        if a[1] == 'NONE' and ty in ('OQ', 'OZ', 'OB'):
             return 'None'
+        if ty == 'OB' and a[1] == 'B':
+            return '(Some %s)' % a[0]                  # [loop ties C15/C05]
         if ty == 'OQ' and a[1] in ('Q', 'Z'):
             return '(Some %s)' % self.toQ(a)
         if ty == 'OZ' and a[1] == 'Z':
@@ -1103,6 +1115,30 @@ class FnTranslator:
         if isinstance(s, ast.AugAssign) and isinstance(s.target, ast.Name) and isinstance(s.op, (ast.Sub, ast.Add, ast.Mult)):
             binop = ast.BinOp(left=ast.Name(id=s.target.id, ctx=ast.Load()), op=s.op, right=s.value)
             return self.block([ast.Assign(targets=[ast.Name(id=s.target.id, ctx=ast.Store())], value=binop)] + rest, env, ret)
+        if isinstance(s, ast.If) and not s.orelse and isinstance(s.test, ast.Compare) and len(s.test.ops) == 1 \
+                and isinstance(s.test.ops[0], ast.Is) and isinstance(s.test.comparators[0], ast.Constant) \
+                and s.test.comparators[0].value is None and isinstance(s.test.left, ast.Name) \
+                and env.get(s.test.left.id, ('', ''))[1] == 'OB':
+            # [loop ties C15/C05] the two narrowing statements on an optional boolean x:
+            #   if x is None: x = <default>     from here on x is a plain boolean (the default, a truth value, when x was None)
+            #   if x is None: <always leaves>   the rest runs only when x is not None: there x is its content
+            name = s.test.left.id
+            inner = self.new(name)
+            if len(s.body) == 1 and isinstance(s.body[0], ast.Assign) and self.target_key(s.body[0].targets[0]) == name:
+                d = self.expr(s.body[0].value, env)
+                if d[1] != 'B':
+                    raise Refuse('%s: default of the optional boolean %s has type %s' % (self.rel, name, d[1]))
+                nm = self.new(name)
+                env2 = dict(env)
+                env2[name] = (nm, 'B')
+                return '(let %s := (match %s with Some %s => %s | None => %s end) in\n   %s)' % (
+                    nm, env[name][0], inner, inner, d[0], self.block(rest, env2, ret))
+            if self.always_returns(s.body):
+                env2 = dict(env)
+                env2[name] = (inner, 'B')
+                return '(match %s with\n   | None => %s\n   | Some %s => %s end)' % (
+                    env[name][0], self.block(s.body, env, ret), inner, self.block(rest, env2, ret))
+            raise Refuse('%s: `if %s is None:` on an optional boolean that neither assigns its default nor leaves' % (self.rel, name))
         if isinstance(s, ast.If) and not s.orelse and len(s.body) == 1 and isinstance(s.body[0], ast.Assign) \
                 and isinstance(s.test, ast.Compare) and len(s.test.ops) == 1 and isinstance(s.test.ops[0], ast.Is) \
                 and isinstance(s.test.comparators[0], ast.Constant) and s.test.comparators[0].value is None \
@@ -1467,7 +1503,7 @@ class FnTranslator:
         if v[1] != 'NONE':
             return v
         prev = env.get(key, ('', ''))[1]
-        oty = {'OZ': 'OZ', 'OQ': 'OQ', 'Z': 'OZ', 'Q': 'OQ'}.get(prev)
+        oty = {'OZ': 'OZ', 'OQ': 'OQ', 'Z': 'OZ', 'Q': 'OQ', 'B': 'OB', 'OB': 'OB'}.get(prev)
         if oty is None:
             raise Refuse('%s: %s = None where %s is not a number or an optional number' % (self.rel, key, key))
         return ('None', oty)
